@@ -16,10 +16,13 @@ pub struct C11wCase {
     pub layout: u8,
     /// edits: 0 = the service's own input, 1 = the build's input, 2 = an unrelated file
     pub edits: Vec<u8>,
+    /// async-std runtime threads of the watching zinoma (0 = default).
+    #[serde(default)]
+    pub runtime_threads: u8,
 }
 
 pub fn c11w_case() -> impl Strategy<Value = C11wCase> {
-    (0u8..4, prop::collection::vec(0u8..3, 1..=4)).prop_map(|(layout, edits)| C11wCase { layout, edits })
+    (0u8..4, prop::collection::vec(0u8..3, 1..=4), prop::sample::select(vec![0u8, 0, 1, 2, 4])).prop_map(|(layout, edits, runtime_threads)| C11wCase { layout, edits, runtime_threads })
 }
 
 fn service_script() -> String {
@@ -54,6 +57,7 @@ fn wait_idle(z: &mut ZProc, sb: &Sandbox, budget: Duration) -> Result<(), String
 }
 
 pub fn eval_c11w(case: &C11wCase) -> CaseResult {
+    set_runtime_threads(case.runtime_threads);
     let sb = Sandbox::new("c11w");
     sb.write("proj/in_s/x.txt", b"s0");
     sb.write("proj/in_b/x.txt", b"b0");
